@@ -163,6 +163,10 @@ def run_into(ctx, rep, prop):
         rep.merge(d, "repetition_%d_calls_same_object_and_fresh_equal_objects" % REPS)
     for d in ctx.pmap(twin_shard, [(prop, ctx.seed)]):
         rep.merge(d, "render_twins_with_different_run_boundaries")
+    for d in ctx.pmap(failure_shard, [(prop, ctx.seed)]):
+        rep.merge(d, "operations_after_failed_calls")
+    for d in ctx.pmap(derived_shard, [(prop, ctx.seed)]):
+        rep.merge(d, "copies_used_after_their_source")
     if chains(prop):
         for d in ctx.pmap(chain_shard, [(prop, ctx.seed)]):
             rep.merge(d, "derivation_chains_of_%d_steps" % CHAIN_LEN)
@@ -369,4 +373,133 @@ def chain_shard(args):
     prop, seed = args
     acc = Acc(seed=seed)
     check_chains(acc, prop)
+    return acc.export()
+
+
+# ---- histories with FAILED calls ------------------------------------------------------------------------------------------------
+
+
+def failing_calls():
+    """(label, fn(f)) - calls that raise by contract or by type error, some of them half-way through their work."""
+    from curtsies.formatstring import Chunk, FmtStr, fmtstr, linesplit
+
+    bad = lambda: FmtStr(Chunk("a\uff25b", {"fg": 31}), Chunk("\uff25 ", {"fg": 91}), Chunk("cc dd", {}))  # an attribute value nothing can render
+    return [
+        ("splice(x, 1.5)", lambda f: f.splice("Z", 1.5)), ("splice(x, 2, 3.5)", lambda f: f.splice("Z", min(2, len(f)), 3.5)), ("splice(x, len/2)", lambda f: f.splice(fmtstr("Y", "red"), len(f) / 2)),
+        ("f[1.5]", lambda f: f[1.5]), ("f['a']", lambda f: f["a"]), ("f + 3", lambda f: f + 3), ("3 + f", lambda f: 3 + f), ("f * 'a'", lambda f: f * "a"),
+        ("f.join(3)", lambda f: f.join(3)), ("f.join([f, 3, f])", lambda f: f.join([f, 3, f])), ("f.join(generator that raises)", lambda f: f.join(x for x in [f, "k", 1 // 0])),
+        ("width_aware_splitlines(0)", lambda f: list(f.width_aware_splitlines(0))), ("width_aware_slice('a')", lambda f: f.width_aware_slice("a")),
+        ("width_aware_splitlines(2) of an unrenderable value", lambda f: list(bad().width_aware_splitlines(2))), ("half a wrap of f then an error", lambda f: [next(f.width_aware_splitlines(3)), 1 // 0]),
+        ("linesplit(f, 0)", lambda f: linesplit(f, 0)), ("linesplit(3, 5)", lambda f: linesplit(3, 5)), ("linesplit(f, 'a')", lambda f: linesplit(f, "a")),
+        ("fmtstr(3)", lambda f: fmtstr(3)), ("fmtstr(f, 'nocolor')", lambda f: fmtstr(f, "nocolor")), ("fmtstr(f, 'red', fg='blue')", lambda f: fmtstr(f, "red", fg="blue")),
+        ("copy_with_new_atts(fg='nocolor') rendered", lambda f: str(f.copy_with_new_atts(fg="nocolor"))), ("f[0] = 'x'", lambda f: f.__setitem__(0, "x")), ("f.ljust('a')", lambda f: f.ljust("a")),
+        ("width of a control character", lambda f: (f + "\x01").width), ("from_str of an unfinished sequence", lambda f: FmtStr.from_str(str(f) + "\x1b[")),
+        ("f.center()", lambda f: f.center()), ("f.split(3)", lambda f: f.split(3)), ("f.split('(', regex=True)", lambda f: f.split("(", regex=True)),
+    ]
+
+
+def check_after_failures(acc, prop):
+    """Every operation of the property's menu right after every failing call (on the same object), and after all of them in a row:
+    the result must be what it was before anything failed (module-level scratch state must not survive an exception)."""
+    fails = failing_calls()
+    for vi, spec in enumerate(values()):
+        if vi in (4, 7):
+            continue
+        shown = C.show_spec(spec[:4])
+        menu = ops(prop)
+        base = []
+        for label, fn in menu:
+            try:
+                base.append(plain(fn(C.build(spec))))
+            except Exception as ex:  # noqa
+                base.append(("exc", type(ex).__name__))
+        f = C.build(spec)
+        for fl, ffn in fails + [("all of them in a row", None)]:
+            for (label, fn), want in zip(menu, base):
+                raised = None
+                for one_label, one in (fails if ffn is None else [(fl, ffn)]):
+                    try:
+                        one(f)
+                    except BaseException as ex:  # noqa
+                        raised = type(ex).__name__
+                case = {"value": {"characters": sum(len(t) for t, _ in spec), "first_runs": shown}, "failed_call_before": fl, "it_raised": raised, "op": label}
+                acc.case(True, key=("afterfail", prop, vi, fl, label), sample=case)
+                acc.transitions += 1
+                for who, obj in (("the same object", f), ("a fresh equal object", C.build(spec))):
+                    try:
+                        r = plain(fn(obj))
+                    except Exception as ex:  # noqa
+                        r = ("exc", type(ex).__name__)
+                    if r != want:
+                        acc.failure("%s:result_differs_after_a_failed_call:%s" % (prop, label.split("(")[0]), dict(case, on=who), "before any failure %r, now %r" % (str(want)[:160], str(r)[:160]))
+                        break
+
+
+def failure_shard(args):
+    from mc.runner import Acc
+
+    prop, seed = args
+    acc = Acc(seed=seed)
+    check_after_failures(acc, prop)
+    return acc.export()
+
+
+# ---- derive after use -----------------------------------------------------------------------------------------------------------
+
+
+def check_derived_after_use(acc, prop):
+    """An operation on f, then a copy of f with other formatting / the same formatting / one attribute removed, then the SAME operation
+    on the copy (and on f again): the copy's result must equal the result for a value built from scratch with the copy's runs (memos
+    handed from a value to its copies must not carry the old formatting or text along)."""
+    from curtsies.formatstring import Chunk, FmtStr, fmtstr
+
+    derive = [
+        ("copy_with_new_atts(fg=cyan, italic)", lambda f: f.copy_with_new_atts(fg=36, italic=True)), ("new_with_atts_removed(fg, bold)", lambda f: f.new_with_atts_removed("fg", "bold")),
+        ("copy()", lambda f: f.copy()), ("fmtstr(f, bg='blue')", lambda f: fmtstr(f, bg="blue")), ("copy_with_new_str", lambda f: f.copy_with_new_str("qrs\uff25t")), ("f[:]", lambda f: f[:]),
+        ("f + ''", lambda f: f + ""), ("f.splice('', 0)", lambda f: f.splice("", 0)),
+    ]
+    for vi, spec in enumerate(values()):
+        if vi == 4:
+            continue
+        shown = C.show_spec(spec[:4])
+        for label, fn in ops(prop):
+            for dl, dfn in derive:
+                f = C.build(spec)
+                case = {"value": {"characters": sum(len(t) for t, _ in spec), "first_runs": shown}, "op": label, "derived_by": dl}
+                acc.case(True, key=("derived", prop, vi, label, dl), sample=case)
+                acc.transitions += 1
+                try:
+                    first = plain(fn(f))
+                except Exception as ex:  # noqa
+                    first = ("exc", type(ex).__name__)
+                try:
+                    g = dfn(f)
+                except Exception:  # noqa
+                    continue
+                scratch = FmtStr(*[Chunk(str(c.s), dict(c.atts)) for c in g.chunks])
+                res = []
+                for obj in (g, scratch, f):
+                    try:
+                        res.append(plain(fn(obj)))
+                    except Exception as ex:  # noqa
+                        res.append(("exc", type(ex).__name__))
+                if prop == "C19" and label in ("repr", "hash"):
+                    continue
+                if prop == "C13":
+                    res = [r[:4] + r[5:] if isinstance(r, tuple) and len(r) > 4 else r for r in res]
+                    first_cmp = first[:4] + first[5:] if isinstance(first, tuple) and len(first) > 4 else first
+                else:
+                    first_cmp = first
+                if res[0] != res[1]:
+                    acc.failure("%s:copy_inherits_state_of_its_source:%s" % (prop, label.split("(")[0]), case, "the copy gives %r, a value built from scratch with the same runs gives %r" % (str(res[0])[:160], str(res[1])[:160]))
+                elif res[2] != first_cmp:
+                    acc.failure("%s:result_changes_after_a_copy_was_used:%s" % (prop, label.split("(")[0]), case, "first %r, after using the copy %r" % (str(first_cmp)[:160], str(res[2])[:160]))
+
+
+def derived_shard(args):
+    from mc.runner import Acc
+
+    prop, seed = args
+    acc = Acc(seed=seed)
+    check_derived_after_use(acc, prop)
     return acc.export()
